@@ -333,6 +333,11 @@ func (c *cluster) judge() {
 			}
 			return "equal-timestamps-across-allocators", false
 		}
+		if a.bits != b.bits {
+			// one allocator, two suffix widths inside one millisecond: the width of a live allocator
+			// was raised (a dc joined) while it kept handing out timestamps of that millisecond
+			return "tso-ranges-overlap:suffix-width-raised-on-live-allocator", true
+		}
 		return "tso-ranges-overlap:" + kindOf(a.o.DC), false
 	}
 	reported := map[[2]int]bool{}
